@@ -477,9 +477,68 @@ var mutators = []mutator{
 			c.txs = append(c.txs, c.pay(1, 0, c.sp(*c.sideCoin)))
 		}
 	}},
+	// heterogeneous inputs: three inputs that differ in script class, origin (coinbase / not), age and lock type,
+	// exactly one of them in violation, at the first / middle / last position.
+	//   kind 0: BIP68 (height lock, time lock, disabled flag; the violating one is a height lock unmet by one)
+	//   kind 1: maturity (one immature coinbase output among a mature coinbase output and a non-coinbase output)
+	//   kind 2: bad signature on one of P2PKH / P2SH-multisig / nested P2WPKH
+	{"hetero", []int64{0, 1, 2, 10, 11, 12, 20, 21, 22}, always, func(c *cand, a int64) {
+		kindOf, pos := a/10, int(a%10)
+		place := func(bad spend, ok1, ok2 spend) []spend {
+			out := []spend{ok1, ok2}
+			return append(out[:pos:pos], append([]spend{bad}, out[pos:]...)...)
+		}
+		switch kindOf {
+		case 0:
+			age := uint32(c.height - c.bs.fanH)
+			bad := c.sp(c.bs.fanOp(fanTrue2))
+			bad.seq = age + 1 // unmet by one block
+			ok1 := c.sp(c.bs.fanOp(fanTrue2 + 2))
+			ok1.seq = wire.SequenceLockTimeIsSeconds | 1 // 512 s: long met
+			ok2 := c.sp(c.bs.cbOp(2, kTrue))
+			ok2.seq = wire.SequenceLockTimeDisabled | 0xffff
+			c.txs = append(c.txs, c.pay(2, 0, place(bad, ok1, ok2)...))
+		case 1:
+			bad := c.sp(c.cbAt(c.height - c.bs.v.maturity + 1))
+			ok1 := c.sp(c.bs.cbOp(2, kTrue))
+			ok2 := c.sp(c.bs.fanOp(fanTrue2 + 2))
+			c.txs = append(c.txs, c.pay(1, 0, place(bad, ok1, ok2)...))
+		case 2:
+			if !active(c.bs.v.segH, c.height) {
+				c.mode = "V" // the nested-segwit input carries witness data: before segwit that alone is a violation
+			}
+			kinds := []kind{kP2PKH, kP2SH, kP2SHWPKH}
+			var ins []spend
+			for i, k := range kinds {
+				s := c.sp(c.bs.cbOp(2, k))
+				if i == pos {
+					s.bad = "sig"
+				}
+				ins = append(ins, s)
+			}
+			c.txs = append(c.txs, c.pay(1, 0, ins...))
+		}
+	}},
+	// rare shapes: a witness stack that is present but holds one empty item; nested segwit spent correctly
+	{"emptywit", []int64{0}, always, func(c *cand, a int64) {
+		s := c.sp(c.bs.cbOp(2, kTrue))
+		s.bad = "emptywit"
+		c.txs = append(c.txs, c.pay(1, 0, s))
+	}},
+	{"nested", []int64{0, 1}, always, func(c *cand, a int64) {
+		s := c.sp(c.bs.cbOp(2, kP2SHWPKH))
+		if a == 1 {
+			s.bad = "nowit"
+		}
+		c.txs = append(c.txs, c.pay(1, 0, s))
+	}},
+	// witness data before segwit on the SECOND input only
+	{"prewit2", []int64{0}, segOff, func(c *cand, a int64) {
+		c.txs = append(c.txs, c.pay(1, 0, c.sp(c.bs.cbOp(2, kTrue)), c.sp(c.bs.cbOp(2, kP2WPKH))))
+	}},
 	// many small transactions, each spending the previous one inside the block: the transaction count crosses the
 	// one-byte compact-size limit (252 / 253 / 254 in total, coinbase included) and the merkle tree gets deep and odd
-	{"manytx", []int64{252, 253, 254}, always, func(c *cand, a int64) {
+	{"manytx", []int64{6, 7, 8, 12, 252, 253, 254}, always, func(c *cand, a int64) {
 		prev := c.txs[len(c.txs)-1] // T4: one OP_TRUE output
 		for int64(len(c.txs))+1 < a {
 			op := wire.OutPoint{Hash: prev.TxHash(), Index: 0}
@@ -536,9 +595,14 @@ var mutators = []mutator{
 		c.resign(1)
 	}},
 	// duplicate inputs inside one transaction
-	{"dupinputs", []int64{0}, always, func(c *cand, a int64) {
+	{"dupinputs", []int64{0, 1}, always, func(c *cand, a int64) {
 		s := c.sp(c.bs.cbOp(2, kTrue))
-		c.txs = append(c.txs, c.bs.b.mkTx(1, 0, []spend{s, s}, []*wire.TxOut{txOut(s.c.amount, kTrue)}))
+		ins := []spend{s, s}
+		if a == 1 {
+			// the two references are the FIRST and the LAST of three inputs
+			ins = []spend{s, c.sp(c.bs.cbOp(2, kMulti)), s}
+		}
+		c.txs = append(c.txs, c.bs.b.mkTx(1, 0, ins, []*wire.TxOut{txOut(s.c.amount, kTrue)}))
 		c.mode = "V" // the second reference is also a double spend
 	}},
 	// null prevout in a non-coinbase transaction
@@ -704,7 +768,7 @@ func init() {
 	for i := range mutators {
 		m := &mutators[i]
 		switch m.name {
-		case "valid", "firstnotcb", "notx", "bip30", "weight", "basesize", "sigops":
+		case "valid", "firstnotcb", "notx", "bip30", "weight", "basesize", "sigops", "pos":
 			continue // replace the coinbase or tune the whole block: not composable
 		}
 		for _, a := range m.args {
@@ -716,6 +780,39 @@ func init() {
 	for k := int64(0); k < 400; k++ {
 		args = append(args, k)
 	}
+	var movable []pick
+	for _, p := range flat {
+		switch p.m.name {
+		case "manytx", "owncb", "duptx", "forwardref", "twocb", "outvalue", "spend", "cbvalue", "cblen", "bip34", "version",
+			"timeold", "timenew", "merkle", "highhash", "bits", "commit", "timewarp":
+			continue // no appended transaction, or one that depends on its place
+		}
+		movable = append(movable, p)
+	}
+	pargs := make([]int64, 0, 2*len(movable))
+	for k := range movable {
+		pargs = append(pargs, int64(2*k), int64(2*k+1))
+	}
+	// pos: the transactions a mutator appends are moved right behind the coinbase (even arg) or into the
+	// middle of the block (odd arg): the violating element is then first / in the middle instead of last
+	mutators = append(mutators, mutator{"pos", pargs, always, func(c *cand, a int64) {
+		p := movable[a/2]
+		if !p.m.applies(c.bs.v, c.height) {
+			return
+		}
+		base := len(c.txs)
+		p.m.f(c, p.a)
+		if len(c.txs) <= base {
+			return
+		}
+		added := append([]*wire.MsgTx(nil), c.txs[base:]...)
+		at := 0
+		if a%2 == 1 {
+			at = 2
+		}
+		rest := append([]*wire.MsgTx(nil), c.txs[:base]...)
+		c.txs = append(append(append([]*wire.MsgTx(nil), rest[:at]...), added...), rest[at:]...)
+	}})
 	mutators = append(mutators, mutator{"combo", args, always, func(c *cand, a int64) {
 		x := uint64(a)*0x9E3779B97F4A7C15 + 77
 		x ^= x >> 29
